@@ -3,7 +3,7 @@
 and records which checks caught it in /verif/seeded/MATRIX.json"""
 import json, os, subprocess, sys, time
 V = os.path.dirname(os.path.dirname(os.path.abspath(__file__)))
-EXTRA = {} if os.environ.get("NOEXTRA") else {"C01": ["C17"], "C03": ["C12"], "C09": ["C13"], "C13": ["C09"], "C06": ["C01"], "C12": ["C03"], "C11": ["C05"]}
+EXTRA = {} if os.environ.get("NOEXTRA") else {"C01": ["C17"], "C03": ["C12"], "C09": ["C13"], "C13": ["C09"], "C06": ["C01"], "C12": ["C03", "C09"], "C11": ["C05"]}
 only = sys.argv[1:]
 out_path = os.path.join(V, "seeded", "MATRIX.json")
 res = json.load(open(out_path)) if os.path.exists(out_path) else {}
